@@ -50,14 +50,14 @@ Lemma sio_set_cap_rel f c : sio_rel f (sio_set_cap f c) [].
 Proof. repeat split; auto. - rewrite app_nil_r; reflexivity. - exists []. rewrite app_nil_r; reflexivity. Qed.
 
 (* kernel write with an empty buffer *)
-Lemma sio_kwrite_spec f d a f' :
-  sio_kwrite f d = (a, f') ->
+Lemma sio_kwrite_cap_spec f g d a f' :
+  sio_kwrite_cap f g d = (a, f') ->
   a <= length d /\ sf_rbuf f' = sf_rbuf f /\ sf_rdisk f' = rev (firstn a d) ++ sf_rdisk f /\
   (sf_err f' = false -> sf_err f = false /\ a = length d) /\
   (sf_err f = true -> sf_err f' = true) /\ (a < length d -> sf_err f' = true) /\
   sf_open f' = sf_open f /\ sf_line f' = sf_line f /\ sf_put f' = sf_put f.
 Proof.
-  unfold sio_kwrite. destruct (sf_cap f) as [c|]; intros H; inversion H; subst; clear H; simpl.
+  unfold sio_kwrite_cap. destruct (sf_cap f) as [c|]; intros H; inversion H; subst; clear H; simpl.
   - rewrite rev_append_rev. repeat split; auto.
     + apply Nat.le_min_r.
     + apply orb_false_iff in H. tauto.
@@ -65,6 +65,20 @@ Proof.
     + intros ->. reflexivity.
     + intros H. apply Nat.ltb_lt in H. rewrite H. apply orb_true_r.
   - rewrite rev_append_rev, firstn_all. repeat split; auto. lia.
+Qed.
+
+Lemma sio_kwrite_spec f d a f' :
+  sio_kwrite f d = (a, f') ->
+  a <= length d /\ sf_rbuf f' = sf_rbuf f /\ sf_rdisk f' = rev (firstn a d) ++ sf_rdisk f /\
+  (sf_err f' = false -> sf_err f = false /\ a = length d) /\
+  (sf_err f = true -> sf_err f' = true) /\ (a < length d -> sf_err f' = true) /\
+  sf_open f' = sf_open f /\ sf_line f' = sf_line f /\ sf_put f' = sf_put f.
+Proof.
+  unfold sio_kwrite. destruct (sf_glitch f) as [[|k]|].
+  - (* the transient failure: nothing accepted, indicator set *)
+    intros H; inversion H; subst; clear H; simpl. repeat split; auto; try lia; discriminate.
+  - apply sio_kwrite_cap_spec.
+  - apply sio_kwrite_cap_spec.
 Qed.
 
 Lemma sio_kwrite_rel f d a f' :
